@@ -189,11 +189,13 @@ type refResult struct {
 // placeholder internal id for a message the update creates (resolved after the run by remote id)
 func newIID(rid string) string { return "new:" + rid }
 
+// canonName mirrors user.joinMailboxName: the first hierarchy level is INBOX in any spelling -> "INBOX".
 func canonName(n string) string {
-	if strings.EqualFold(n, "inbox") {
-		return "INBOX"
+	parts := strings.Split(n, "/")
+	if strings.EqualFold(parts[0], "inbox") {
+		parts[0] = "INBOX"
 	}
-	return n
+	return strings.Join(parts, "/")
 }
 
 // refApply computes the expected result. gens are the UIDVALIDITY values the counter generator will hand out next.
@@ -227,7 +229,7 @@ func refApply(s0 *dbSnap, u *upd, nextGen int, litOf map[string]string) refResul
 			return res // restates (by id)
 		}
 		res.NGens = 1
-		if s.mbByName(u.Name) != nil {
+		if s.mbByName(canonName(u.Name)) != nil {
 			return fail(false, "name taken")
 		}
 		maxIID := uint64(0)
@@ -236,7 +238,7 @@ func refApply(s0 *dbSnap, u *upd, nextGen int, litOf map[string]string) refResul
 				maxIID = m.IID
 			}
 		}
-		s.Mb = append(s.Mb, &dbMb{IID: 0 /* resolved later */, RID: u.MboxRID, Name: u.Name, UIDV: nextGen, Sub: true, Next: 1})
+		s.Mb = append(s.Mb, &dbMb{IID: 0 /* resolved later */, RID: u.MboxRID, Name: canonName(u.Name), UIDV: nextGen, Sub: true, Next: 1})
 		return res
 	case "MailboxDeleted":
 		if u.MboxRID == recoveryRID {
@@ -270,13 +272,14 @@ func refApply(s0 *dbSnap, u *upd, nextGen int, litOf map[string]string) refResul
 			res.Valid = false
 			return res
 		}
+		// names are compared exactly: a change of letter case is a rename
 		if mb.Name == canonName(u.Name) {
 			return res
 		}
-		if o := s.mbByName(u.Name); o != nil && o != mb {
+		if o := s.mbByName(canonName(u.Name)); o != nil && o != mb {
 			return fail(false, "name taken")
 		}
-		mb.Name = u.Name
+		mb.Name = canonName(u.Name)
 		return res
 	case "MailboxIDChanged":
 		mb := s.mbByIID(u.MboxIID)
